@@ -55,11 +55,12 @@ Theorem c07_roundtrip_exact_finite_range :
 Proof. exact fr_roundtrip_linear. Qed.
 Print Assumptions c07_roundtrip_exact_finite_range.
 
-(* categorical one-hot *)
+(* categorical one-hot, with or without active choices (members outside the active set included:
+   data encoded w.r.t. the full range decodes as before) *)
 Theorem c07_roundtrip_exact_onehot :
-  forall choices x, mem_val x choices = true ->
+  forall choices active x, mem_val x choices = true ->
     exists e y, onehot_to_nd choices x = Some e /\ length e = length choices /\ Forall unit_itv e /\
-                onehot_from_nd choices e = Some y /\ val_eqb x y = true.
+                onehot_from_nd choices active e = Some y /\ val_eqb x y = true.
 Proof. exact onehot_roundtrip. Qed.
 Print Assumptions c07_roundtrip_exact_onehot.
 
@@ -107,14 +108,16 @@ Theorem c07_active_range_index :
 Proof. exact idx_active. Qed.
 Print Assumptions c07_active_range_index.
 
-(* REFUTED for one-hot blocks: the all-zero vector lies inside get_ndarray_bounds and decodes to
-   the first category, which need not be active (replayed on the real code: finding) *)
-Theorem c07_active_range_onehot_refuted :
-  exists choices act b v y,
-    onehot_bounds choices (Some act) = Some b /\ in_bounds b v = true /\
-    onehot_from_nd choices v = Some y /\ mem_val y act = false.
-Proof. exact onehot_active_zero_refuted. Qed.
-Print Assumptions c07_active_range_onehot_refuted.
+(* one-hot blocks: EVERY vector inside get_ndarray_bounds decodes to an active category.
+   [Refuted before the fix of F-C07-7 (from_ndarray = choices[argmax v] over all coordinates): the
+    all-zero vector lies inside the bounds and was decoded to choices[0], e.g. choices [a;b;c],
+    active [b;c], v = [0;0;0] -> a.  Now ties are broken in favour of active choices.] *)
+Theorem c07_active_range_onehot :
+  forall choices act b v y,
+    onehot_bounds choices (Some act) = Some b -> in_bounds b v = true ->
+    onehot_from_nd choices (Some act) v = Some y -> mem_val y act = true.
+Proof. exact onehot_active. Qed.
+Print Assumptions c07_active_range_onehot.
 
 (* ---- cast ------------------------------------------------------------------------------- *)
 Theorem c07_cast_member :
@@ -124,48 +127,32 @@ Proof. exact cast_member. Qed.
 Print Assumptions c07_cast_member.
 
 (* ---- JSON --------------------------------------------------------------------------------- *)
-(* from_dict (to_dict d) = d (hence identical encoding) for Uniform / LogUniform samplers and
-   the sampler-less classes *)
+(* from_dict (to_dict d) = d (hence identical encoding) for every class and every sampler:
+   Uniform, LogUniform, ReverseLogUniform (Float) and one Quantized wrapper around them.
+   [Before the fixes: reverseloguniform was read back as loguniform (F-C07-4:
+    json_roundtrip (DFloat lo hi SRevLog) = Some (DFloat lo hi SLogUniform)), and quantised domains
+    were not serialisable (F-C07-5: json_roundtrip = None).] *)
 Theorem c07_json_roundtrip :
   forall base d, 0 < base -> json_ok d -> json_roundtrip base d = Some d.
 Proof. exact json_roundtrip_ok. Qed.
 Print Assumptions c07_json_roundtrip.
 
-(* REFUTED for reverseloguniform: it is read back as loguniform *)
-Theorem c07_json_roundtrip_reverselog_refuted :
-  forall base lo hi, 0 < base -> lo <= hi ->
-    json_roundtrip base (DFloat lo hi SRevLog) = Some (DFloat lo hi SLogUniform).
-Proof. exact json_revlog_refuted. Qed.
-Print Assumptions c07_json_roundtrip_reverselog_refuted.
-
-(* REFUTED for quantised domains: not serialisable *)
-Theorem c07_json_roundtrip_quantized_refuted :
-  forall base d,
-    (exists lo hi s q, d = DFloat lo hi (SQuant s q)) \/ (exists lo hi s q, d = DInteger lo hi (SQuant s q)) ->
-    json_roundtrip base d = None.
-Proof. exact json_quantized_refuted. Qed.
-Print Assumptions c07_json_roundtrip_quantized_refuted.
-
 (* ---- samplers ----------------------------------------------------------------------------- *)
-(* every non-quantised sampler, as a function of the raw numpy draw (u in [0,1) or the
-   randint/choice index within its contract), returns a member *)
+(* EVERY sampler, the Quantized wrapper included, as a function of the raw numpy draw (u in [0,1)
+   or the randint/choice index within its contract), returns a member.  Side conditions
+   ([samp_hyp]): the integer log sampler (no clip in the code) needs the monotonicity/inverse
+   facts of log/exp; a quantisation factor is positive.  Float log / reverse-log samplers and all
+   quantised samplers need nothing: the code clips.
+   [Before the fixes of F-C07-1/2/9/10 this was REFUTED for Quantized: qrandint(1, 10, 4), raw
+    draw 1 -> round(1/4)*4 = 0 < lower, and needed the log/exp facts for the Float log samplers.] *)
 Theorem c07_sample_member :
-  forall sc_log sc_rev d r x, dom_wf d -> plain_sampler d = true -> samp_hyp sc_log sc_rev d ->
+  forall sc_log sc_rev d r x, dom_wf d -> samp_hyp sc_log sc_rev d ->
     raw_ok d r = true -> dom_sample sc_log sc_rev d r = Some x -> dom_member sc_log d x = true.
 Proof. exact sample_member. Qed.
 Print Assumptions c07_sample_member.
 
-(* Quantized.sample = round(v / q) * q without clipping. REFUTED: qrandint(1, 10, 4), raw draw 1 -> 0 *)
-Theorem c07_sample_member_quantized_refuted :
-  exists lo hi q i, (lo <= i <= hi)%Z /\ 0 < q /\
-    raw_ok (DInteger lo hi (SQuant SUniform q)) (RawI i) = true /\
-    exists z, dom_sample Domain.linear Domain.linear (DInteger lo hi (SQuant SUniform q)) (RawI i) = Some (VI z) /\
-              dom_member Domain.linear (DInteger lo hi (SQuant SUniform q)) (VI z) = false /\ (z < lo)%Z.
-Proof. exact quantized_int_refuted. Qed.
-Print Assumptions c07_sample_member_quantized_refuted.
-
-(* the TRUE condition: all quantised integer samples are members iff quantising the two bounds
-   does not leave the interval (rounding lower/q goes up or is exact, upper/q down or exact) *)
+(* when does the clip of Quantized.sample do nothing?  Pure quantisation round(v/q)*q keeps all
+   integer draws inside iff quantising the two bounds does not leave the interval *)
 Theorem c07_sample_member_quantized_int_iff :
   forall q lo hi, 0 < q -> (lo <= hi)%Z ->
     ((forall i, (lo <= i <= hi)%Z -> (lo <= round_he (quantize q (inject_Z i)) <= hi)%Z) <->
@@ -180,27 +167,25 @@ Theorem c07_sample_member_quantized_float_iff :
 Proof. exact quantized_float_iff. Qed.
 Print Assumptions c07_sample_member_quantized_float_iff.
 
-(* sufficient: q divides both bounds *)
-Theorem c07_sample_member_quantized_divisible :
-  forall sc_log sc_rev lo hi k i, (0 < k)%Z -> (k | lo)%Z -> (k | hi)%Z -> (lo <= i <= hi)%Z ->
-    exists z, dom_sample sc_log sc_rev (DInteger lo hi (SQuant SUniform (inject_Z k))) (RawI i) = Some (VI z) /\
-              dom_member sc_log (DInteger lo hi (SQuant SUniform (inject_Z k))) (VI z) = true.
-Proof. exact quantized_int_sample_member. Qed.
-Print Assumptions c07_sample_member_quantized_divisible.
+(* a nearest-neighbour ordinal with ONE category (inside the property's quantifier): sample
+   returns it and the encoder is the equal-distance ordinal range.
+   [Before the fix of F-C07-6: nn_sample = None (TypeError) and no range (assertion).] *)
+Theorem c07_ordinal_nn_one_category :
+  forall (eps : Q) (sl sr : scaling) (c : val) (ls : bool) (u : Q),
+    nn_sample (if ls then sl else Domain.linear) [c] u = Some c /\
+    range_of_domain eps sl sr (DOrdinalNN [c] ls) None =
+      Some (HOrdEq [c] {| i_lo := 0; i_hi := 0; i_sc := Domain.linear; i_alo := 0; i_ahi := 0 |}).
+Proof. exact nn_one_category. Qed.
+Print Assumptions c07_ordinal_nn_one_category.
 
-(* REFUTED for a nearest-neighbour ordinal with ONE category (inside the property's quantifier):
-   sample() and the construction of the encoder fail *)
-Theorem c07_ordinal_nn_one_category_refuted :
-  forall sc c u active, nn_sample sc [c] u = None /\ nn_range sc [c] active = None.
-Proof. exact nn_one_category_refuted. Qed.
-Print Assumptions c07_ordinal_nn_one_category_refuted.
-
-(* REFUTED: a listed value of a finite range that is outside the domain of its scaling
-   (0 in a logfinrange with cast_int) cannot be encoded *)
-Theorem c07_finite_range_encode_refuted :
-  forall eps r x, Qeqb (f_step r) 0 = false -> sc_dom (f_sc r) (val_num x) = false -> fr_to_nd eps r x = None.
-Proof. exact fr_encode_fails_outside_domain. Qed.
-Print Assumptions c07_finite_range_encode_refuted.
+(* finite range: encoding never fails on the assert of the scaling, whatever value is encoded
+   [before the fix of F-C07-8: fr_to_nd = None for a listed value outside the domain of the
+    scaling, e.g. 0 in logfinrange(0.1, 10, 4, cast_int=True)] *)
+Theorem c07_finite_range_encode_total :
+  forall r x, f_lo r <= f_hi r -> (forall y, f_lo r <= y <= f_hi r -> sc_dom (f_sc r) y = true) ->
+    exists i, fr_map_to_int r x = Some i.
+Proof. exact fr_map_to_int_total. Qed.
+Print Assumptions c07_finite_range_encode_total.
 
 (* ---- non-vacuity ---------------------------------------------------------------------------- *)
 Example c07_example :
@@ -214,10 +199,10 @@ Example c07_example :
   space_from_nd eps hs [1; 1 # 2; 0; 1; 1; 0] = Some [VI 10; VF (2 # 2); VS 1; VF (0 # 4)] /\
   (exists e, space_to_nd eps hs [VI 10; VF 1; VS 1; VF 0] = Some e /\ length e = 6%nat /\
              space_from_nd eps hs e = Some [VI 10; VF (2 # 2); VS 1; VF (0 # 4)]) /\
-  json_ok (DFloat 0 2 SLogUniform) /\ dom_wf (DInteger 1 10 SUniform) /\
+  json_ok (DFloat 0 2 (SQuant SLogUniform (1 # 2))) /\ dom_wf (DInteger 1 10 SUniform) /\
   sc_good Domain.linear 0 2.
 Proof.
   cbv zeta. split; [repeat constructor; simpl; try lia; try discriminate; try lra|].
   split; [reflexivity|]. split; [vm_compute; reflexivity|]. split; [eexists; split; [vm_compute; reflexivity|]; split; vm_compute; reflexivity|].
-  split; [simpl; split; [lra | right; reflexivity]|]. split; [simpl; lia | apply linear_good].
+  split; [simpl; split; [lra | exact I]|]. split; [simpl; lia | apply linear_good].
 Qed.
